@@ -430,6 +430,27 @@ func insertAt(evs []irev.J, i int, e irev.J) []irev.J {
 	return append(out, evs[i:]...)
 }
 
+// c09EditDual edits the two bindings of the dual-source output struct of the golden stream.
+func c09EditDual(evs []irev.J, edit func(a, b map[string]any)) ([]irev.J, bool) {
+	for _, e := range evs {
+		in, _ := e["inner"].(map[string]any)
+		if e["ev"] != "type" || in == nil || in["k"] != "struct" {
+			continue
+		}
+		var dual []map[string]any
+		for _, m := range in["ms"].([]any) {
+			if b := m.(map[string]any)["b"].(map[string]any); b["k"] == "location" && asInt(b["bs"]) >= 0 {
+				dual = append(dual, b)
+			}
+		}
+		if len(dual) == 2 {
+			edit(dual[0], dual[1])
+			return evs, true
+		}
+	}
+	return evs, false
+}
+
 func c09Corruptions() []c09Corruption {
 	boolRes := irev.J{"h": -1, "v": irev.J{"k": "scalar", "sk": "bool", "w": 1}}
 	return []c09Corruption{
@@ -585,7 +606,7 @@ func c09Corruptions() []c09Corruption {
 				}
 				var locs []map[string]any
 				for _, m := range in["ms"].([]any) {
-					if b := m.(map[string]any)["b"].(map[string]any); b["k"] == "location" {
+					if b := m.(map[string]any)["b"].(map[string]any); b["k"] == "location" && asInt(b["bs"]) < 0 {
 						locs = append(locs, b)
 					}
 				}
@@ -595,6 +616,12 @@ func c09Corruptions() []c09Corruption {
 				}
 			}
 			return evs, false
+		}},
+		{"@blend_src dropped from a dual-source pair (both outputs at location 0)", "share a location", func(evs []irev.J) ([]irev.J, bool) {
+			return c09EditDual(evs, func(a, b map[string]any) { a["bs"], b["bs"] = -1, -1 })
+		}},
+		{"both dual-source outputs carry the same @blend_src", "share a location", func(evs []irev.J) ([]irev.J, bool) {
+			return c09EditDual(evs, func(a, b map[string]any) { b["bs"] = a["bs"] })
 		}},
 		{"storage buffer loses @group/@binding", "without @group/@binding", func(evs []irev.J) ([]irev.J, bool) {
 			i := findEv(evs, 0, func(j irev.J) bool { return j["ev"] == "global" && j["space"] == "storage" })
@@ -854,6 +881,65 @@ func c09Stages(name, src string) (stages []string, streams []*irev.Stream) {
 	return
 }
 
+// c09Reorder lowers src under the stage hook and reports whether ir.ReorderTypes really permuted the type arena and
+// whether some function records an inline pointer type whose pointee is one of the moved arena entries (the situation
+// in which a stale handle inside an inline resolution becomes visible).
+func c09Reorder(src string) (permuted, movedPointee bool) {
+	c09StageMu.Lock()
+	defer c09StageMu.Unlock()
+	sig := func(t ir.Type) string {
+		switch in := t.Inner.(type) {
+		case ir.ScalarType, ir.VectorType, ir.MatrixType, ir.AtomicType:
+			return fmt.Sprintf("%s|%T%v", t.Name, in, in)
+		}
+		return fmt.Sprintf("%s|%T", t.Name, t.Inner)
+	}
+	var before []string
+	wgsl.VerifSetLowerStageHook(func(stage string, m *ir.Module) {
+		switch stage {
+		case "CompactTypes":
+			for _, t := range m.Types {
+				before = append(before, sig(t))
+			}
+		case "ReorderTypes":
+			if len(before) != len(m.Types) {
+				return
+			}
+			moved := make([]bool, len(m.Types))
+			for i, t := range m.Types {
+				if sig(t) != before[i] {
+					moved[i] = true
+					permuted = true
+				}
+			}
+			if !permuted {
+				return
+			}
+			look := func(f *ir.Function) {
+				for _, tr := range f.ExpressionTypes {
+					if p, ok := tr.Value.(ir.PointerType); ok && tr.Handle == nil && int(p.Base) < len(moved) && moved[p.Base] {
+						movedPointee = true
+					}
+				}
+			}
+			for i := range m.Functions {
+				look(&m.Functions[i])
+			}
+			for i := range m.EntryPoints {
+				look(&m.EntryPoints[i].Function)
+			}
+		}
+	})
+	defer wgsl.VerifSetLowerStageHook(nil)
+	func() {
+		defer func() { _ = recover() }()
+		if ast, err := naga.Parse(src); err == nil {
+			_, _ = naga.LowerWithSource(ast, src)
+		}
+	}()
+	return
+}
+
 func c09Sig(mod *c09Mod, v c09Verdict) string {
 	d := c09Describe(mod, v.L, v)
 	return d["rule"] + "|" + d["fn"] + "|" + d["shape"]
@@ -925,6 +1011,14 @@ func c09Modules(c *core.Ctx, rng *rand.Rand) ([]*c09Mod, error) {
 		src, _ := RandModule(rng)
 		mods = append(mods, &c09Mod{Name: fmt.Sprintf("rand:%d/%d", c.Seed, i), Family: "rand", Src: src})
 	}
+	// modules built around type aliases (declared before and after use, the aliased type also spelled directly) and
+	// around IO attribute lists in both orders, every second one with a dual-source (@blend_src) fragment output
+	nio := c.Pick(12, 400)
+	for i := 0; i < nio; i++ {
+		opts := RandOpts{Aliases: true, Dual: i%2 == 0, AttrLast: i%4 == 0, Stages: []string{[]string{"vertex", "fragment", "compute"}[i%3]}}
+		src, _ := RandModuleWith(rng, opts)
+		mods = append(mods, &c09Mod{Name: fmt.Sprintf("aliasio:%d/%d", c.Seed, i), Family: "aliasio", Src: src})
+	}
 	return mods, nil
 }
 
@@ -982,10 +1076,29 @@ func runC09(tier, replay string) int {
 		}
 		mod.idx = c09BuildIndex(&mod.stream)
 	})
+	npermuted, nmoved, ndual := 0, 0, 0
 	for _, mod := range mods {
 		if mod.idx != nil {
 			live = append(live, mod)
+			if mod.Family == "rand" || mod.Family == "aliasio" {
+				p, mv := c09Reorder(mod.Src)
+				if p {
+					npermuted++
+				}
+				if mv {
+					nmoved++
+				}
+				if strings.Contains(mod.Src, "@blend_src(1) @location(0)") {
+					ndual++
+				}
+			}
 		}
+	}
+	c.Cov["modules_where_ReorderTypes_permutes_the_arena"] = npermuted
+	c.Cov["modules_with_an_inline_pointer_type_to_a_moved_arena_entry"] = nmoved
+	c.Cov["modules_with_blend_src_written_before_location"] = ndual
+	if os.Getenv("C09_RAND") == "" && (nmoved == 0 || ndual == 0) { // vacuity guard for the handle-renumbering and IO-binding rules
+		c.BrokenF("generated modules do not exercise type reordering (%d permuted, %d with a moved pointee) or dual-source IO (%d)", npermuted, nmoved, ndual)
 	}
 	if skipped*3 > len(mods) {
 		c.BrokenF("%d of %d modules could not be judged", skipped, len(mods))
@@ -1173,8 +1286,12 @@ func runC09(tier, replay string) int {
 	for _, i := range bad {
 		mod := live[i]
 		taintedFn := map[int]bool{}
+		fwdFn := map[int]bool{} // functions with a Compose whose components were appended after it (it is never emitted)
 		taintedMod := false
 		for _, v := range verdicts[i] {
+			if strings.HasPrefix(v.Rule, "operand handle refers forward") && mod.stream.Events[v.L].What == "Compose" {
+				fwdFn[mod.idx.fnOf[v.L]] = true
+			}
 			if constRoot(v.Rule) {
 				if f := mod.idx.fnOf[v.L]; f >= 0 {
 					taintedFn[f] = true
@@ -1196,6 +1313,9 @@ func runC09(tier, replay string) int {
 			d["tainted"] = "-"
 			if f := mod.idx.fnOf[v.L]; f >= 0 && typingRule(v.Rule) && !constRoot(v.Rule) && (taintedMod || taintedFn[f]) {
 				d["tainted"] = "constfold"
+			}
+			if (strings.HasPrefix(v.Rule, "operand of an emitted expression is not in scope") || strings.HasPrefix(v.Rule, "statement operand is not in scope")) && fwdFn[mod.idx.fnOf[v.L]] {
+				d["tainted"] = "forward-compose"
 			}
 			if attr[i] != nil {
 				if st, ok := attr[i][d["rule"]+"|"+d["fn"]+"|"+d["shape"]]; ok {
